@@ -27,6 +27,27 @@ const LITERALS: &[&str] = &[
     "[[[0],1],[[0]]]", "{\"a\":1,\"b\":2}", "[{\"name\":\"n\",\"v\":2}]", "[[0,\"a\"],[1,\"b\"]]", "[null,true,1,\"a\",[],{}]", "[65,233,128512]",
     "[2015,2,5,23,51,47,4,63]", "{\"key\":null}", "[[],[1]]", "[{\"a\":1},{\"a\":2}]",
 ];
+
+const MB_STRS: &[&str] = &[
+    "\"\"", "\"a\"", "\"é\"", "\"aé\"", "\"éa\"", "\"日本語\"", "\"😀\"", "\"a😀b\"", "\"e\\u0301\"", "\"\\ud83d\"", "\"\\udc00x\"", "\"ａｂ\"",
+    "\"a,b;c\"", "\"  x  \"", "\"ÀÉÎ\"", "\"ßẞ\"", "\"\\u0000a\"", "\"\\t\\n\"", "\"aaa\"", "\"abcabc\"", "\"12é34\"", "\"%41%zz%C3\"", "\"YQ==\"", "\"w6k=\"", "\"!!!!\"",
+];
+const REGEXES: &[&str] = &[
+    "\"\"", "\"a\"", "\"é\"", "\".\"", "\"(?<n>.)\"", "\"(a)|(b)\"", "\"\\\\b\"", "\"^\"", "\"$\"", "\"[^a]\"", "\"\\\\p{L}+\"", "\"(\"", "\"[\"", "\"a{2,1}\"",
+    "\"(?i)É\"", "\"\\\\d*\"", "\"(?<x>a)(?<y>b)?\"", "\"a*?\"", "\"(a*)*\"", "\".{0}\"", "\"\\\\s+\"", "\"😀\"", "\"(?<n>)\"",
+];
+const RE_FLAGS: &[&str] = &["\"g\"", "\"i\"", "\"x\"", "\"gi\"", "\"n\"", "\"gx\"", "\"l\"", "\"s\"", "null", "\"z\"", "\"\"", "\"gn\"", "\"p\""];
+const REPLS: &[&str] = &["\"x\"", "\"\\(.n)\"", "\"\\(.)\"", "\"\"", "\"é\"", "\"\\(.captures)\"", "\"<\\(.x)\\(.y)>\"", "(\"a\",\"b\")", "empty"];
+const CODEPOINTS: &[&str] = &["0", "65", "233", "55296", "57343", "1114111", "1114112", "-1", "1.5", "1e18", "\"a\"", "null", "128512", "4294967296"];
+const PATH_LITS: &[&str] = &[
+    "[]", "[\"a\"]", "[0]", "[-1]", "[\"a\",0]", "[1.5]", "[null]", "[{\"start\":1,\"end\":null}]", "[{\"start\":-1e18,\"end\":1e18}]",
+    "[\"a\",{\"start\":0}]", "[true]", "[[0]]", "[1e18]", "[-1e18]", "[\"a\",\"b\",\"c\"]", "[0,0,0]", "[{\"start\":0.5,\"end\":1.5}]", "[{\"start\":null}]", "[{}]",
+];
+const HETERO: &[&str] = &[
+    "[nan, 1, null, \"a\", [], {}]", "[nan, nan]", "[{}, [], \"\", 0, null, false, true]", "[[1],[2,3],[]]", "[1,[2]]", "[{\"a\":nan},{\"a\":1},{\"a\":null}]",
+    "[1e1000, -1e1000, 0, -0]", "[\"b\",\"a\",\"é\",\"B\"]", "[[], [[]], [[[]]]]", "[{\"a\":1,\"b\":2},{\"b\":2,\"a\":1}]", "[null]", "[]",
+];
+
 const FIELDS: &[&str] = &["a", "b", "c", "k", "é", "a_b", "x1"];
 const ZERO_ARG: &[&str] = &[
     "length", "utf8bytelength", "keys", "keys_unsorted", "values", "type", "tostring", "tonumber", "tojson", "fromjson",
@@ -214,7 +235,7 @@ impl<'a> ProgGen<'a> {
             return self.atom();
         }
         let d = depth + 1;
-        match self.rng.below(40) {
+        match self.rng.below(44) {
             0..=4 => self.atom(),
             5..=7 => format!("{} | {}", self.expr(d), self.expr(d)),
             8 => format!("{}, {}", self.expr(d), self.expr(d)),
@@ -478,7 +499,128 @@ impl<'a> ProgGen<'a> {
             36 => format!("[{}, {}] | transpose", self.expr(d), self.expr(d)),
             37 => format!("{{a: {}}} | to_entries", self.expr(d)),
             38 => format!("({}) | ascii_downcase? // {}", self.expr(d), self.atom()),
+            40 | 41 => self.strings_family(),
+            42 | 43 => self.paths_family(),
             _ => format!("[{}] | {}", self.expr(d), (*self.rng.pick(ZERO_ARG))),
+        }
+    }
+
+
+    /// Strings, regexes, formats and number printing (multi-byte text, odd flags, empty patterns).
+    fn strings_family(&mut self) -> String {
+        let st = (*self.rng.pick(MB_STRS)).to_string();
+        let re = (*self.rng.pick(REGEXES)).to_string();
+        let fl = (*self.rng.pick(RE_FLAGS)).to_string();
+        let rp = (*self.rng.pick(REPLS)).to_string();
+        let st2 = (*self.rng.pick(MB_STRS)).to_string();
+        let n = self.num();
+        let m = self.num();
+        match self.rng.below(40) {
+            0 => format!("{st} | test({re}; {fl})"),
+            1 => format!("{st} | [match({re}; {fl})]"),
+            2 => format!("{st} | [match({re}; \"g\") | .offset, .length, .string]"),
+            3 => format!("{st} | capture({re}; {fl})"),
+            4 => format!("{st} | [scan({re})]"),
+            5 => format!("{st} | [scan({re}; {fl})]"),
+            6 => format!("{st} | sub({re}; {rp})"),
+            7 => format!("{st} | gsub({re}; {rp})"),
+            8 => format!("{st} | gsub({re}; {rp}; {fl})"),
+            9 => format!("{st} | [splits({re})]"),
+            10 => format!("{st} | [splits({re}; {fl})]"),
+            11 => format!("{st} | split({st2})"),
+            12 => format!("{st} | split({re}; {fl})"),
+            13 => format!("{st} | ltrimstr({st2}), rtrimstr({st2}), startswith({st2}), endswith({st2})"),
+            14 => format!("{st} | index({st2}), rindex({st2}), indices({st2})"),
+            15 => format!("{st} | .[{n}:{m}]"),
+            16 => format!("{st} | .[{n}:], .[:{m}]"),
+            17 => format!("{st} | explode | implode"),
+            18 => {
+                let a = (*self.rng.pick(CODEPOINTS)).to_string();
+                let b = (*self.rng.pick(CODEPOINTS)).to_string();
+                format!("[{a}, {b}] | implode")
+            }
+            19 => format!("{st} | ascii_downcase, ascii_upcase, trim, ltrim, rtrim"),
+            20 => format!("{st} | @base64 | @base64d"),
+            21 => format!("{st} | @base64d"),
+            22 => format!("{st} | @uri | @urid"),
+            23 => format!("{st} | @urid"),
+            24 => format!("{st} | tojson | fromjson"),
+            25 => format!("{st} | fromjson"),
+            26 => format!("{st} | tonumber"),
+            27 => format!("{st} | utf8bytelength, length"),
+            28 => format!("[{st}, {st2}, {n}, null, true] | join({st2})"),
+            29 => format!("[{st}, {n}, null, [{m}], {{}}] | @csv, @tsv, @html, @sh, @json, @text"),
+            30 => format!("[{st}, {n}, null, true] | @csv \"\\(.)\", @sh \"\\(.[0])\", @uri \"\\(.[0])\""),
+            31 => format!("{n} | tostring, tojson, @text, @json"),
+            32 => format!("[{n}, {m}] | @csv, @tsv, tojson, tostring"),
+            33 => format!("\"\\({n})\\({st})\\({m} | tojson)\""),
+            34 => format!("{st} | test({st2})"),
+            35 => format!("{st} | [match({re}; {fl}) | .captures[]? | .name, .string, .offset]"),
+            36 => format!("{st} | ascii"),
+            37 => format!("{st} | [.[{n}:{m}] | explode[]] | implode"),
+            38 => format!("{st} | sub(\"(?<n>.)\"; \"\\(.n)\\(.n)\"; \"g\")"),
+            _ => format!("({st} | {}) | {}", self.expr(6), (*self.rng.pick(&["length", "explode", "ascii_downcase", "tojson", "@base64", "utf8bytelength", "tonumber?", "ltrimstr(\"a\")"]))),
+        }
+    }
+
+    /// Paths, assignment, destructuring and control flow.
+    fn paths_family(&mut self) -> String {
+        let pl = (*self.rng.pick(PATH_LITS)).to_string();
+        let pl2 = (*self.rng.pick(PATH_LITS)).to_string();
+        let lit = (*self.rng.pick(LITERALS)).to_string();
+        let het = (*self.rng.pick(HETERO)).to_string();
+        let p = self.path();
+        let p2 = self.path();
+        let n = self.num();
+        let e = self.atom();
+        let g = self.bounded_gen();
+        match self.rng.below(46) {
+            0 => format!("{lit} | [path({p})]"),
+            1 => format!("{lit} | [paths]"),
+            2 => format!("{lit} | [paths(type == \"number\")]"),
+            3 => format!("{lit} | getpath({pl})"),
+            4 => format!("{lit} | delpaths([{pl}, {pl2}])"),
+            5 => format!("{lit} | del({p}, {p2})"),
+            6 => format!("{lit} | setpath({pl}; {e})"),
+            7 => format!("{lit} | to_entries, with_entries(.value |= {e})"),
+            8 => format!("{lit} | ({p} |= {e})"),
+            9 => format!("{lit} | ({p} += {e})"),
+            10 => format!("{lit} | [path(..)] | length"),
+            11 => format!("{lit} | [path(first({p}, {p2}))]"),
+            12 => format!("{lit} | [path(if . then {p} else {p2} end)]"),
+            13 => format!("{lit} | [path({p} // {p2})]"),
+            14 => format!("{lit} | [path(getpath({pl}))]"),
+            15 => format!("{lit} | [path(empty)], [path(error)?]"),
+            16 => format!("{lit} | (.[{n}:] |= {e})"),
+            17 => format!("{lit} | del(.[{n}:{}])", self.num()),
+            18 => format!("{lit} | . as [$a, {{b: $c}}] | [$a, $c]"),
+            19 => format!("{lit} | . as {{a: [$x, $y]}} | [$x, $y]"),
+            20 => format!("{lit} | . as [$a] ?// {{a: $a}} ?// $a | [$a]"),
+            21 => format!("{lit} | [.[]? as [$a] ?// $a | $a]"),
+            22 => format!("{lit} | . as {{$a, b: [$c]}} | [$a, $c]"),
+            23 => format!("{lit} | . as {{({e}): $x}} | $x"),
+            24 => format!("reduce {g} as $x ({e}; (., 1))"),
+            25 => format!("reduce {g} as $x ({e}; empty)"),
+            26 => format!("[foreach {g} as $x ({e}; empty; .)]"),
+            27 => format!("[foreach {g} as $x ({e}; (., .); [., $x])]"),
+            28 => format!("reduce empty as $x (0; .), [foreach (1,2) as [$a] (0; . + $a)]"),
+            29 => "[label $a | label $b | (1, break $a, 2)], [label $a | (1, break $a)], first(label $a | break $a)".into(),
+            30 => format!("label $a | try (break $a) catch ., [label $b | {g} | if . == 2 then break $b else . end]"),
+            31 => format!("try error(null) catch ., try error({lit}) catch ., [.[]? | try error(.) catch .]"),
+            32 => format!("try ({g}) catch ., [(error({e}))?], (try error(\"\\(.)\") catch .)"),
+            33 => format!("{{({g}): {e}}}, {{a: {g}}}, {{({e}): 1}}?"),
+            34 => format!("{het} | sort, group_by(.), unique, min, max, (map(tojson) | sort)"),
+            35 => format!("{het} | min_by(.), max_by(.), unique_by(type), sort_by(type), index(nan), (.[0] < .[1]), (.[0] == .[0])"),
+            36 => format!("{het} | transpose"),
+            37 => format!("{lit} | fromstream(tostream), [tostream] | length"),
+            38 => format!("{lit} | fromstream(1 | truncate_stream({lit} | tostream))"),
+            39 => format!("fromstream({pl}, {pl2}, {lit})"),
+            40 => format!("{lit} | walk(if type == \"array\" then sort else . end), walk({e})"),
+            41 => "env | length, ($ENV | type), input_line_number, $__loc__, ([inputs] | length)".into(),
+            42 => format!("[limit(0; {g})], first(empty), [nth(0; empty)], (0 | until(. >= 3; . + 1))"),
+            43 => format!("{lit} | [.. | numbers], [.. | strings], [recurse(.[]?; . != null)] | length"),
+            44 => format!("{lit} | pick({p}), (to_entries | from_entries), (keys, values | length)"),
+            _ => format!("{het} | [.[] | tojson], (. - [nan]), (. + .), (. | add), any, all, flatten, (map(length?) | add)"),
         }
     }
 
